@@ -3,7 +3,7 @@
    OCaml's own; N, positive, nat, ascii, string, comparison stay Coq datatypes. *)
 Require Extraction.
 Require ExtrOcamlBasic.
-From RC Require Import Base.Res Base.Wire Model.Enums Gen.EnumTables Gen.Merge Model.Open Model.Negotiate Gen.CmpChain Model.Select Model.Nlri Model.NlriOrd Model.AsPath Gen.AttrRules Model.Attr Model.Update Gen.BuilderConsts Model.Builder Model.PaMap Gen.CapRules Model.OpenMsg Gen.FsmTable Model.Fsm Base.Text Gen.CommTables Model.Comm Gen.TimerConsts Model.Timer.
+From RC Require Import Base.Res Base.Wire Model.Enums Gen.EnumTables Gen.Merge Model.Open Model.Negotiate Gen.CmpChain Model.Select Model.Nlri Model.NlriOrd Model.AsPath Gen.AttrRules Model.Attr Model.Update Gen.BuilderConsts Model.Builder Model.PaMap Gen.CapRules Model.OpenMsg Gen.FsmTable Model.Fsm Base.Text Gen.CommTables Model.Comm Gen.TimerConsts Model.Timer Model.Bmp.
 Extraction Language OCaml.
 Set Extraction KeepSingleton.
 Extraction "../ocaml/model.ml"
@@ -46,4 +46,9 @@ Extraction "../ocaml/model.ml"
   Comm.ext_is_transitive Comm.ext_as2 Comm.ext_as4 Comm.ext_ip4 Comm.ext_an2 Comm.ext_an4 Comm.large_display
   Comm.large_from_str Comm.v6_display Comm.v6_from_str Comm.v6_is_transitive Comm.octs
   Timer.tstep Timer.t_init Timer.texec
+  Bmp.bmp_from_octets Bmp.a_version Bmp.a_msg_length Bmp.a_msg_type Bmp.a_pph Bmp.pph_peer_type Bmp.pph_flags Bmp.pph_distinguisher
+  Bmp.pph_address Bmp.pph_asn Bmp.pph_bgp_id Bmp.pph_timestamp Bmp.pph_rib_type Bmp.flag_set Bmp.a_bgp_update Bmp.a_stats_count
+  Bmp.a_stats Bmp.a_pd_reason Bmp.a_pd_notification Bmp.a_pd_fsm Bmp.a_pu_local_address Bmp.a_pu_local_port Bmp.a_pu_remote_port
+  Bmp.a_pu_opens Bmp.a_pu_open_sent Bmp.a_pu_open_rcvd Bmp.a_pu_information_tlvs Bmp.a_init_tlvs Bmp.a_term_information
+  Negotiate.sc_modern
   EnumTables.all_enum_widths EnumTables.all_enum_names.
